@@ -2,6 +2,7 @@
 //! before translation, after `inline.rs`):
 //!   `if let PAT = E { A } else { B }`      ->  `match E { PAT => A, _ => B }`      (no `else`: `_ => {}`)
 //!   `let PAT = E else { DIVERGE };`        ->  `let x = match E { PAT => x, _ => DIVERGE };`   (PAT binds exactly one name x)
+//!   `let mut it = E; ..lets..; while let Some(P) = it.next() { B }`  ->  `..lets..; for P in E { B }`   (`it` used nowhere else; see `while_let_next`)
 //! Both are the definitions of these forms in the Rust reference; nothing is approximated.
 use syn::visit_mut::{self, VisitMut};
 use syn::*;
@@ -30,6 +31,7 @@ impl VisitMut for Desugar {
     }
     fn visit_block_mut(&mut self, b: &mut Block) {
         visit_mut::visit_block_mut(self, b);
+        while_let_next(b);
         for st in b.stmts.iter_mut() {
             if let Stmt::Local(l) = st {
                 let Some(init) = &l.init else { continue };
@@ -47,6 +49,69 @@ impl VisitMut for Desugar {
                 *st = new;
             }
         }
+    }
+}
+
+fn idents_of(ts: proc_macro2::TokenStream, acc: &mut Vec<String>) {
+    for t in ts { match t { proc_macro2::TokenTree::Ident(i) => acc.push(i.to_string()), proc_macro2::TokenTree::Group(g) => idents_of(g.stream(), acc), _ => {} } }
+}
+
+/// `let mut it = E; S1; ..; Sk; while let Some(P) = it.next() { B }`  ->  `S1; ..; Sk; for P in E { B }`
+/// — the definition of `for` (`loop { match it.next() { Some(P) => B, None => break } }` over `IntoIterator::into_iter(E)`, the
+/// identity on an iterator) read backwards.  Exact under the conditions checked here: `it` is a plain local that occurs nowhere
+/// else in its scope (so neither `B` nor the code after the loop can observe or advance it), the loop has no label, and the
+/// statements `S1..Sk` between the `let` and the loop are `let`s that neither bind nor mention any identifier of `E` (moving the
+/// evaluation of `E` behind them cannot change any value; the translated code has no effects but panics, which are not ordered).
+fn while_let_next(b: &mut Block) {
+    loop {
+        let mut hit: Option<(usize, usize)> = None;
+        'search: for (j, st) in b.stmts.iter().enumerate() {
+            let Stmt::Expr(Expr::While(w), _) = st else { continue };
+            if w.label.is_some() { continue; }
+            let Expr::Let(l) = &*w.cond else { continue };
+            let Pat::TupleStruct(ts) = &*l.pat else { continue };
+            if !ts.path.is_ident("Some") || ts.elems.len() != 1 { continue; }
+            let Expr::MethodCall(mc) = &*l.expr else { continue };
+            if mc.method != "next" || !mc.args.is_empty() || mc.turbofish.is_some() { continue; }
+            let Expr::Path(rp) = &*mc.receiver else { continue };
+            let Some(x) = rp.path.get_ident().map(|i| i.to_string()) else { continue };
+            for i in (0..j).rev() {
+                let Stmt::Local(loc) = &b.stmts[i] else { continue };
+                let Pat::Ident(pi) = &loc.pat else { continue };
+                if pi.ident != x.as_str() { continue; }
+                if pi.by_ref.is_some() || pi.subpat.is_some() { continue 'search; }
+                let Some(init) = &loc.init else { continue 'search };
+                if init.diverge.is_some() { continue 'search; }
+                // `it` occurs exactly once after its declaration (in the loop condition)
+                let mut after = vec![];
+                for s in &b.stmts[i + 1..] { idents_of(quote::quote!(#s), &mut after); }
+                if after.iter().filter(|n| **n == x).count() != 1 { continue 'search; }
+                let e = &init.expr;
+                // only expression forms that can stand in the head of a `for` without parentheses
+                if !matches!(&**e, Expr::MethodCall(_) | Expr::Call(_) | Expr::Path(_) | Expr::Field(_) | Expr::Paren(_) | Expr::Reference(_)) { continue 'search; }
+                let mut e_ids = vec![];
+                idents_of(quote::quote!(#e), &mut e_ids);
+                if e_ids.iter().any(|n| *n == x) { continue 'search; }
+                for s in &b.stmts[i + 1..j] {
+                    let Stmt::Local(_) = s else { continue 'search };
+                    let mut ids = vec![];
+                    idents_of(quote::quote!(#s), &mut ids);
+                    if ids.iter().any(|n| n != "let" && n != "mut" && e_ids.contains(n)) { continue 'search; }
+                }
+                hit = Some((i, j));
+                break 'search;
+            }
+        }
+        let Some((i, j)) = hit else { return };
+        let Stmt::Local(loc) = b.stmts[i].clone() else { unreachable!() };
+        let e = loc.init.unwrap().expr;
+        let Stmt::Expr(Expr::While(w), _) = b.stmts[j].clone() else { unreachable!() };
+        let Expr::Let(l) = &*w.cond else { unreachable!() };
+        let Pat::TupleStruct(ts) = &*l.pat else { unreachable!() };
+        let p = &ts.elems[0];
+        let body = &w.body;
+        b.stmts[j] = parse_quote!(for #p in #e #body);
+        b.stmts.remove(i);
     }
 }
 
